@@ -781,13 +781,33 @@ def judge_c13(ctx, idx, op, impl, mi, ms, reason):
         if not impl.startswith("refused") or r.get("clear") != "0":
             f.append(Finding("property", idx, "with TLS enabled and the handshake failing, the client proceeded or put Diameter octets on a socket in clear text", expected="refused clear=0", observed=impl, name="C13_no_cleartext"))
         return f
+    if op[0] == "tlsre":
+        if impl.startswith("skipped"):
+            return []
+        ctx.count("reconnect_" + impl.replace(" ", "_"))
+        f = same(ctx, idx, op, impl, mi, "Tls.outcome per connection <-> two connect() calls of one client object")
+        if impl != ms:
+            f.append(Finding("property", idx, "one client object, two connections: outcomes `%s` where configuration and certificates demand `%s` (what the object met on an earlier connection decides nothing)" % (impl, ms), expected=ms, observed=impl, name="C13_table"))
+        return f
     if op[0] != "tls":
         return same(ctx, idx, op, impl, mi, "set-up")
     if impl.startswith("skipped"):
         ctx.count("skipped_no_ipv6")
         return []
-    f = same(ctx, idx, op, impl, mi, "Tls.outcome (decision glue + assumed TLS library) <-> DiameterClient::connect / DiameterServer::listen")
     lab = label_kv(" ".join(op[1:]))
+    if lab.get("spell", "0") != "0":
+        # an address spelling the library does not take: refusing it is fine; if it is taken, the configuration decides
+        ctx.count("spell_" + impl.split(" ")[0])
+        r = kv(impl)
+        bad = None
+        if lab.get("ctls") == "1" and r.get("clear") == "1":
+            bad = "with TLS enabled the client put Diameter octets on the socket in clear text (address spelled as a DiameterURI)"
+        elif lab.get("stls") == "1" and lab.get("ctls") == "0" and (r.get("served") == "1" or r.get("answered") == "1"):
+            bad = "a server configured with a TLS identity processed / answered a plain-text request"
+        elif not impl.startswith("refused") and impl.split(" ")[0] != ms:
+            bad = "outcome `%s` where the configuration demands `%s` (or a refusal of the address): the spelling of the address decided how the connection is protected" % (impl.split(" ")[0], ms)
+        return [Finding("property", idx, bad, expected=ms + " or refused", observed=impl, name="C13_table")] if bad else []
+    f = same(ctx, idx, op, impl, mi, "Tls.outcome (decision glue + assumed TLS library) <-> DiameterClient::connect / DiameterServer::listen")
     cls = impl.split(" ")[0]
     r = kv(impl)
     ctx.count("cell_" + cls)
@@ -1062,7 +1082,7 @@ PROPS = {
     "C08": dict(family="c08", judge=judge_c08, probes=("serve", "lsn", "lsnpipe", "servemany"), expect_keys=["serve_good", "serve_herr", "serve_unencodable", "serve_malformed_kind0", "serve_malformed_kind1", "serve_malformed_kind2", "serve_malformed_kind3", "serve_malformed_kind4", "serve_malformed_kind5"], title="Server answers each request exactly once, in order, unmodified"),
     "C09": dict(family="c09", judge=judge_c08, probes=("serve", "lsn"), expect_keys=["serve_readcut", "serve_writecut"], title="Server survives connection loss at any byte offset"),
     "C10": dict(family="c10", judge=judge_c10, probes=("lsn",), title="One misbehaving connection cannot disturb the others"),
-    "C13": dict(family="c13", judge=judge_c13, probes=("tls", "tlsq", "tlsrude"), title="TLS settings are honoured exactly"),
+    "C13": dict(family="c13", judge=judge_c13, probes=("tls", "tlsq", "tlsrude", "tlsre"), title="TLS settings are honoured exactly"),
     "C11": dict(family="c11", judge=judge_cli, probes=("cli", "ctcp", "clim"), model_input=cli_model_input, title="Client delivers each answer to the request it belongs to"),
     "C12": dict(family="c12", judge=judge_cli, probes=("cli", "ctcp", "cliswitch", "clim"), expect_keys=["ev_stop", "ev_refused", "ev_rm", "ev_dl", "future_err", "future_got", "future_pending", "late_err", "tcp_scenarios"], model_input=cli_model_input, title="Every response future eventually completes"),
     "C14": dict(both_builds=True, family="c14", judge=judge_c14, probes=("dget", "dbyname", "dapp", "dcmd"), title="Dictionary lookups reflect exactly what was loaded, latest wins"),
